@@ -486,7 +486,10 @@ fn translate_item(src: &mut Sources, reg: &mut Registry, module: &str, mcfg: &It
                 (None, Some(t)) => format!("{}::{}", t, name),
                 (None, None) => name.clone(),
             };
-            let doc = format!("{} fn `{}`", where_(meta.start, meta.end), key);
+            let doc = match str_of(item, "as") {
+                Some(_) => format!("{} fn `{}` (as `{}`)", where_(meta.start, meta.end), name, key),
+                None => format!("{} fn `{}`", where_(meta.start, meta.end), key),
+            };
             let out = trans::translate_fn(&mut cx, &lean_name, &doc, sig, body)?;
             new_fn = Some((key, out.info));
             (out.lean, out.defs)
